@@ -48,6 +48,15 @@ def same(a, b, rel=REL, abs_=0.0):
 # ------------------------------------------------------------------------------------------
 
 _SRC = {"new": 0, "reader": 1, "top": 2}
+# pseudo-formats of the capability table -> file extension (= factory key)
+_EXT = {"pdbx": "pdb", "h5": "h5", "h5s": "h5", "h5a": "h5", "h5ta": "h5"}
+# layout of the generated H5MD file: box time-dependent or not, lengths in Angstrom with units module
+_H5MODE = {"h5": "timedep 0", "h5s": "static 0", "h5a": "static 1", "h5ta": "timedep 1"}
+
+
+def _wopen_cmds(rec, path, app=False, reuse=False):
+    pre = ["h5mode " + _H5MODE[rec["fmt"]]] if rec["fmt"] in _H5MODE else []
+    return pre + ["wopen %s %d %d" % (path, 1 if app else 0, 1 if reuse else 0)]
 
 
 def _txt(k, e, div):
@@ -85,7 +94,7 @@ def _history_cmds(rec, path):
     for op in rec["h"]:
         a = op["a"]
         if a == "wopen":
-            cmds.append("wopen %s %d %d" % (path, 1 if op["app"] else 0, 1 if op.get("reuse") else 0))
+            cmds += _wopen_cmds(rec, path, op["app"], op.get("reuse"))
         elif a == "wwrite":
             cmds.append(_frame_cmd(rec, op["fr"]))
             if rec["fmt"] == "pdbx":
@@ -262,7 +271,7 @@ def replay_histories(ctx, exe, recs, sdir, tag, checked=False):
     items = []
     meta = []
     for i, rec in enumerate(recs):
-        path = os.path.join(sdir, "%s%d.%s" % (tag, i, {"pdbx": "pdb"}.get(rec["fmt"], rec["fmt"])))
+        path = os.path.join(sdir, "%s%d.%s" % (tag, i, _EXT.get(rec["fmt"], rec["fmt"])))
         cmds, where = _history_cmds(rec, path)
         items.append((i, cmds))
         meta.append((path, where))
@@ -630,13 +639,13 @@ def replay_xmlbase(ctx, exe, recs, sdir):
 def replay_two(ctx, exe, recs, sdir):
     items, meta = [], []
     for i, rec in enumerate(recs):
-        paths = [os.path.join(sdir, "w%d_%d.%s" % (i, s, rec["fmt"])) for s in (1, 2)]
+        paths = [os.path.join(sdir, "w%d_%d.%s" % (i, s, _EXT.get(rec["fmt"], rec["fmt"]))) for s in (1, 2)]
         cmds = [_top_cmd(rec)]
         files = rec["h"][0]
         if files["a"] != "files":
             raise vlib.InfraError("TwoReaders history without files record")
         for s in (0, 1):
-            cmds.append("wopen %s 0 0" % paths[s])
+            cmds += _wopen_cmds(rec, paths[s])
             for fr in files["frames"][s]:
                 cmds += [_frame_cmd(rec, fr), "wwrite"]
             cmds.append("wclose")
@@ -687,6 +696,90 @@ def replay_two(ctx, exe, recs, sdir):
                 pass
     if recs and switches < 3:
         raise vlib.InfraError("TwoReaders: no history alternates between the readers")
+
+
+# ------------------------------------------------------------------------------------------
+# delivery into different Topology objects (Deliver.tla)
+# ------------------------------------------------------------------------------------------
+
+def replay_deliver(ctx, exe, recs, sdir):
+    items, meta = [], []
+    for i, rec in enumerate(recs):
+        path = os.path.join(sdir, "d%d.%s" % (i, _EXT.get(rec["fmt"], rec["fmt"])))
+        frec = rec["h"][0]
+        if frec["a"] != "file":
+            raise vlib.InfraError("Deliver history without file record")
+        cmds = [_top_cmd(rec)] + _wopen_cmds(rec, path)
+        for fr in frec["frames"]:
+            cmds.append(_frame_cmd(rec, fr))
+            if rec["fmt"] == "pdbx":
+                cmds.append("wbox")
+            cmds.append("wwrite")
+        # B is copied BEFORE the first frame is read, C after it
+        cmds += ["wclose", "rtop %d" % rec["n"], "rcopy 1", "ropen %s 0" % path]
+        where = []
+        for j, op in enumerate(rec["h"][1:]):
+            cmds.append("%s %d" % ("rfirstto" if op["a"] == "rfirst" else "rnextto", op["tgt"] - 1))
+            where.append(len(cmds) - 1)
+            if j == 0:
+                cmds.append("rcopy 2")
+        cmds.append("rclose")
+        items.append((i, cmds))
+        meta.append((path, where))
+    results, crashes = vlib.run_items(exe, items, timeout=3000)
+    ntgt = 0
+    for i, rec in enumerate(recs):
+        fmt = rec["fmt"]
+        ctx.traces += 1
+        order = [op["tgt"] for op in rec["h"][1:]]
+        ntgt = max(ntgt, len(set(order)))
+        ctx.nontriv(("deliver", fmt, str(order), rec["h"][0]["frames"][0]["bc"]))
+        path, where = meta[i]
+        if i in crashes:
+            ctx.violation("%s:deliver:crash" % fmt, "driver died: %s" % crashes[i], rec)
+            continue
+        out = results[i]
+        last = {}       # target index -> last dump seen
+        for j, op in enumerate(rec["h"][1:]):
+            obs = _res(out[where[j]])
+            if "exc" in obs:
+                if obs["exc"].startswith("driver:"):
+                    raise vlib.InfraError(obs["exc"])
+                ctx.violation("%s:deliver:exception" % fmt, "call %d into object %s (targets %s) threw: %s"
+                              % (j + 1, "ABC"[op["tgt"] - 1], order, obs["exc"]), rec)
+                break
+            if bool(obs["ret"]) != op["ret"]:
+                ctx.violation("%s:deliver:eof" % fmt, "call %d returned %s, the file says %s (targets %s)"
+                              % (j + 1, obs["ret"], op["ret"], order), rec)
+                break
+            t = op["tgt"] - 1
+            # objects that were not passed must be exactly as they were
+            stop = False
+            for k2, d in enumerate(obs["all"]):
+                if k2 != t and d is not None and k2 in last and last[k2] != d:
+                    ctx.violation("%s:deliver:other-object-modified" % fmt,
+                                  "call %d delivered into %s but object %s changed (targets %s)"
+                                  % (j + 1, "ABC"[t], "ABC"[k2], order), rec)
+                    stop = True
+            for k2, d in enumerate(obs["all"]):
+                if d is not None:
+                    last[k2] = d
+            if stop:
+                break
+            if op["ret"]:
+                bad = _cmp_frame(fmt, op["exp"], rec["units"], obs)
+                cls = "own" if t == 0 else ("copy-before" if t == 1 else "copy-after")
+                for w, tx in bad[:2]:
+                    ctx.violation("%s:deliver:%s:%s" % (fmt, cls, w), "frame %d delivered into object %s (targets %s): %s"
+                                  % (op["k"], "ABC"[t], order, tx), rec)
+                if bad:
+                    break
+        try:
+            os.unlink(path)
+        except OSError:
+            pass
+    if recs and ntgt < 3:
+        raise vlib.InfraError("Deliver: no history uses all three Topology objects")
 
 
 # ------------------------------------------------------------------------------------------
@@ -793,7 +886,9 @@ def run(ctx):
         if getattr(ctx, "replay", None):
             import json
             obj = json.load(open(ctx.replay))["replay"]
-            if "h" in obj and obj["h"] and obj["h"][0].get("a") == "files":
+            if "h" in obj and obj["h"] and obj["h"][0].get("a") == "file":
+                replay_deliver(ctx, exe, [obj], sdir)
+            elif "h" in obj and obj["h"] and obj["h"][0].get("a") == "files":
                 replay_two(ctx, exe, [obj], sdir)
             elif "h" in obj:
                 replay_histories(ctx, exe, [obj], sdir, "r")
@@ -870,6 +965,28 @@ def run(ctx):
         if not any(sum(1 for o in r["h"] if o["a"] == "wwrite") == 3 for r in tiny if r["fmt"] == "dlph"):
             raise vlib.InfraError("no 3-frame dlph history with tiny payloads")
         replay_histories(ctx, exe, tiny, sdir, "y")
+        # H5MD reader (file generated by the driver): time-dependent / time-independent box, units module
+        m = "MCTrajH5" if quick else "MCTrajH5T"
+        res = vlib.tlc("trajio", m, cfg=m + ".cfg", timeout=2400)
+        vlib.tlc_must_hold(res, "TrajIO h5md layouts")
+        ctx.add_tlc(m, res)
+        h5 = [r for r in res.records if sum(1 for o in r["h"] if o["a"] == "rnext" and not o["ret"]) >= 1 or
+              _variant(r) != "read"]
+        seen = set((r["fmt"], r["hv"], r["hf"], sum(1 for o in r["h"] if o["a"] == "wwrite")) for r in h5)
+        for f in ("h5", "h5s", "h5a", "h5ta"):
+            for hvv in (False, True):
+                for hff in (False, True):
+                    if not any((f, hvv, hff, k) in seen for k in (2, 3)):
+                        raise vlib.InfraError("vacuous h5md configuration: %s hv=%s hf=%s multi-frame missing" % (f, hvv, hff))
+        replay_histories(ctx, exe, h5, sdir, "q")
+        # one reader, frames delivered into different Topology objects (own, copy made before / after frame 1)
+        res = vlib.tlc("trajio", "MCDeliver", cfg="MCDeliver.cfg", timeout=1200)
+        vlib.tlc_must_hold(res, "Deliver: target independence")
+        ctx.add_tlc("MCDeliver", res)
+        if not res.records:
+            raise vlib.InfraError("no delivery history exported")
+        replay_deliver(ctx, exe, res.records, sdir)
+        ctx.extra["deliver_histories"] = len(res.records)
         # two reader objects open at the same time, calls interleaved in every order
         res = vlib.tlc("trajio", "MCTwoReaders", cfg="MCTwoReaders.cfg", timeout=1200)
         vlib.tlc_must_hold(res, "TwoReaders independence")
